@@ -586,7 +586,7 @@ func c06_4(c *core.Ctx, p *core.Prog) {
 	if !m.ok(c) {
 		return
 	}
-	fn := a.sendFn
+	fn := a.apportionFn()
 	// shard fields: pending slice, totalSent
 	st := a.shard.Underlying().(*types.Struct)
 	var pendingF, totalF *types.Var
@@ -626,11 +626,12 @@ func c06_4(c *core.Ctx, p *core.Prog) {
 	// after = totalSent + sent
 	okAfter := false
 	if b, ok := afterV.(*ssa.BinOp); ok && b.Op == token.ADD && isFieldLoad(b.X, totalF) {
-		if core.DerivesFrom(b.Y, func(v ssa.Value) bool {
-			cl, ok := v.(*ssa.Call)
-			return ok && cl.Call.IsInvoke() && cl.Call.Method == a.mSplit
-		}) {
-			okAfter = true
+		// exactly the size reported (a conversion of it), not an expression over it
+		y := core.StripConv(core.Canon(core.ResolveParam(core.Canon(core.StripConv(b.Y)))))
+		if ex, ok := y.(*ssa.Extract); ok && ex.Index == 0 {
+			if cl, ok := ex.Tuple.(*ssa.Call); ok && cl.Call.IsInvoke() && cl.Call.Method == a.mSplit {
+				okAfter = true
+			}
 		}
 	}
 	c.Check(okAfter, "after", p.Pos(fn.Pos()), core.FuncName(fn), "running total advances by the size reported by splitBatch", "the running total is not advanced by exactly the size splitBatch reported: later batches are apportioned to the wrong callers")
@@ -1218,7 +1219,7 @@ func c06_7(c *core.Ctx, p *core.Prog) {
 	// who may write pending entries: only the send function (decrement / removal)
 	var extra []string
 	for _, f := range cbpFuncs(c, p) {
-		if f == a.sendFn || core.IsCanaryPath(core.FnPkgPath(f)) {
+		if f == a.sendFn || f == a.apportionFn() || core.IsCanaryPath(core.FnPkgPath(f)) {
 			continue
 		}
 		core.EachInstr(f, func(i ssa.Instruction) {
